@@ -257,14 +257,17 @@ Definition sdpa_via_mha_check (key_bhsd : bool) (q k v : option (list Z)) : opti
    mask: None = the match has no mask; Some None = mask of unknown shape; Some (Some ms).
    [repaired] = false: as read at bbeff32 (shapes bound, nothing else); true: fix (fix 9ed3615) -- a mask of rank > 4 or with a
    static dim that is neither 1 nor the (static) score dim it is aligned with is refused, and H must be static. *)
-Fixpoint mask_into_score_rev (mask_rev score_rev : list Z) : bool :=
+(* [strict] = false: fix 9ed3615 as committed -- only a static mask dim against a STATIC score dim is compared (known finding
+   C19:sdpa:static-mask-dim-against-symbolic-score-dim: mask [2,..] against a symbolic batch that is 1 at run time is fused);
+   true: the proposed repair ready/C19_08 -- a static mask dim other than 1 must EQUAL the score dim (a symbolic one never does). *)
+Fixpoint mask_into_score_rev (strict : bool) (mask_rev score_rev : list Z) : bool :=
   match mask_rev, score_rev with
-  | m :: mt, c :: ct => negb (is_static m && is_static c && negb (m =? 1)%Z && negb (m =? c)%Z) && mask_into_score_rev mt ct
+  | m :: mt, c :: ct => negb (is_static m && (strict || is_static c) && negb (m =? 1)%Z && negb (m =? c)%Z) && mask_into_score_rev strict mt ct
   | _, _ => true
   end.
-Definition mask_into_score (mask score : list Z) : bool :=
-  (length mask <=? 4)%nat && mask_into_score_rev (rev mask) (rev score).
-Definition sdpa_check (repaired key_bhsd : bool) (q k v : option (list Z)) (mask : option (option (list Z))) : bool :=
+Definition mask_into_score (strict : bool) (mask score : list Z) : bool :=
+  (length mask <=? 4)%nat && mask_into_score_rev strict (rev mask) (rev score).
+Definition sdpa_check (repaired strict key_bhsd : bool) (q k v : option (list Z)) (mask : option (option (list Z))) : bool :=
   let b1 := check_shape (Some []) q [0; 1; 2; 3]%nat in
   let b2 := check_shape b1 k (if key_bhsd then [0; 1; 4; 3] else [0; 4; 1; 3])%nat in
   let b3 := check_shape b2 v [0; 1; 4; 5]%nat in
@@ -274,7 +277,7 @@ Definition sdpa_check (repaired key_bhsd : bool) (q k v : option (list Z)) (mask
       negb repaired ||
       match lookup bd 0%nat, lookup bd 1%nat, lookup bd 2%nat, lookup bd 4%nat with
       | Some b, Some h, Some s, Some skv =>
-          match mask with Some (Some ms) => mask_into_score ms [b; h; s; skv] | _ => true end && is_static h
+          match mask with Some (Some ms) => mask_into_score strict ms [b; h; s; skv] | _ => true end && is_static h
       | _, _, _, _ => false
       end
   end.
@@ -390,7 +393,7 @@ Inductive attn_case :=
   | CSdpaMha (key_bhsd : bool) (q k v : option (list Z)) (observed : option Z)
   | CGqa (head16 : bool) (i : gqa_in) (observed : option (Z * Z * Z))
   | CAtt (i : att_in) (observed : option (Z * Z * Z))
-  | CSdpaCheck (repaired key_bhsd : bool) (q k v : option (list Z)) (mask : option (option (list Z))) (observed : bool)
+  | CSdpaCheck (repaired strict key_bhsd : bool) (q k v : option (list Z)) (mask : option (option (list Z))) (observed : bool)
   | COutReshape (B S H Dv : Z) (tgt : list Z) (observed_same : bool).
 Definition attn_agrees (c : attn_case) : bool :=
   match c with
@@ -398,7 +401,7 @@ Definition attn_agrees (c : attn_case) : bool :=
   | CSdpaMha kb q k v obs => oz_eq (sdpa_via_mha_check kb q k v) obs
   | CGqa h16 i obs => oz3_eqb (gqa_check_rewrite false h16 i) obs
   | CAtt i obs => oz3_eqb (att_check_rewrite i) obs
-  | CSdpaCheck r kb q k v m obs => Bool.eqb (sdpa_check r kb q k v m) obs
+  | CSdpaCheck r st kb q k v m obs => Bool.eqb (sdpa_check r st kb q k v m) obs
   | COutReshape b s h dv tgt obs => Bool.eqb (tgt_is_BSD b s h dv tgt) obs
   end.
 Fixpoint attn_disagreeing (i : nat) (cs : list attn_case) : list nat :=
